@@ -1789,4 +1789,126 @@ Proof.
   eapply Forall2_imp; [|exact HRW]. intros k ch' Hr. apply Represents_VerdictW; assumption.
 Qed.
 
+
+(* one step down a located descent: the rest of the descent is located at the point expressed in
+   the frame given by the rule above *)
+Lemma LocW_head : forall s du key p ch b, LocW s du key p ch b -> exists r, ch = key :: r.
+Proof. intros s du key p ch b H. destruct H; eauto. Qed.
+
+Lemma LocW_step : forall s du key p c r b cl,
+  LocW s du key p (key :: c :: r) b -> dget key (s_cells s) = Some cl ->
+  exists b1 b2, b = b1 && b2 /\ Den s (act_seq (c_trcl cl) p) (c_geom cl) b1 /\
+                LocW s du c (frame cl p) (c :: r) b2.
+Proof.
+  intros s du key p c r b cl H Hk.
+  inversion H as [key' cl' p' b0 Hk' Hf' HD' Ek Ep Ec Eb
+                 |key' cl' u' p' c' chain' b1' b2' Hk' Hf' Hc' HD' HL' Ek Ep Ec Eb].
+  subst key' p' chain'. rewrite Hk in Hk'. inversion Hk'; subst cl'.
+  destruct (LocW_head _ _ _ _ _ _ HL') as (r' & Hr'). inversion Hr'; subst c' r'.
+  exists b1', b2'. split; [congruence|]. split; [exact HD' | exact HL'].
+Qed.
+
+(* ---- the precedence rule, from the keyword tokens ----------------------------------------------- *)
+Section Precedence.
+Variable mk : list Z -> T.
+Variable norm : bool -> list Z -> list Z.
+(* Python truthiness of the tuple *)
+Hypothesis mk_empty : forall l, tr_empty (mk l) = match l with [] => true | _ => false end.
+(* normalize_transform returns twelve numbers *)
+Hypothesis norm_nonempty : forall star params, norm star params <> [].
+
+Notation kw_tuple := (kw_tuple norm).
+Notation cell_of_keywords := (cell_of_keywords T mk norm).
+
+Lemma kw_tuple_explicit : forall is_fill star trid params table l,
+  params <> [] -> (forall k c, dget k table = Some c -> c <> []) ->
+  kw_tuple is_fill star trid params table = Ok l -> l <> [].
+Proof.
+  intros is_fill star trid params table l Hne Htab H. unfold Model.kw_tuple in H.
+  destruct (parse_tr_params is_fill star trid params table) as [[l0|]|] eqn:E; [| |discriminate].
+  - inversion H; subst. exact (parse_tr_params_explicit _ _ _ _ _ _ Hne Htab E).
+  - inversion H; subst. apply norm_nonempty.
+Qed.
+
+Lemma act_mk : forall l p, act (mk l) p = match l with [] => p | _ => inv (mk l) p end.
+Proof. intros l p. unfold Spec.act. rewrite mk_empty. destruct l; reflexivity. Qed.
+
+(* the frame of the filling universe of a cell built from its keywords:
+   a FILL transformation given by number / inline / starred wins, whatever the TRCL is;
+   a FILL without transformation follows the cell's TRCL; without TRCL the frame is the cell's *)
+Theorem precedence_from_tokens : forall table mat rho geom imp u star univ trid params trcl cl,
+  (forall k c, dget k table = Some c -> c <> []) ->
+  cell_of_keywords table mat rho geom imp u (Some (star, univ, trid, params)) trcl = Ok cl ->
+  c_fill cl = Some univ /\
+  (params <> [] ->
+     exists lf, kw_tuple true star trid params table = Ok lf /\ lf <> [] /\
+                forall p, frame cl p = inv (mk lf) p) /\
+  (params = [] ->
+     match trcl with
+     | None => forall p, frame cl p = p
+     | Some (tstar, ttrid, tparams) =>
+         exists lt, kw_tuple false tstar ttrid tparams table = Ok lt /\
+                    forall p, frame cl p = match lt with [] => p | _ => inv (mk lt) p end
+     end).
+Proof.
+  intros table mat rho geom imp u star univ trid params trcl cl Htab H.
+  unfold Model.cell_of_keywords in H.
+  destruct (Model.kw_tuple norm true star trid params table) as [lf|] eqn:Ef; [|discriminate].
+  destruct trcl as [[[tstar ttrid] tparams]|].
+  - destruct (Model.kw_tuple norm false tstar ttrid tparams table) as [lt|] eqn:Et; [|discriminate].
+    assert (Hcl : cl = mkCell mat rho geom imp (match u with Some n => Z.abs n | None => 0 end)
+                         (Some univ) (Some (mk lf)) 0
+                         (match lt with [] => [] | _ => [mk lt] end) []).
+    { destruct lt; inversion H; reflexivity. }
+    subst cl. split; [reflexivity|]. split.
+    + intros Hne. exists lf. split; [reflexivity|].
+      pose proof (kw_tuple_explicit _ _ _ _ _ _ Hne Htab Ef) as Hlf. split; [exact Hlf|].
+      intros p. unfold Spec.frame. cbn [c_filltr]. rewrite mk_empty. destruct lf; [contradiction | reflexivity].
+    + intros ->. exists lt. split; [reflexivity|].
+      assert (lf = []).
+      { unfold Model.kw_tuple in Ef. rewrite parse_tr_params_fill_none in Ef. inversion Ef. reflexivity. }
+      subst lf. intros p. unfold Spec.frame. cbn [c_filltr c_trcl]. rewrite mk_empty.
+      destruct lt as [|a r]; [reflexivity|]. cbn [Spec.act_seq]. rewrite act_mk. reflexivity.
+  - inversion H; subst cl. split; [reflexivity|]. split.
+    + intros Hne. exists lf. split; [reflexivity|].
+      pose proof (kw_tuple_explicit _ _ _ _ _ _ Hne Htab Ef) as Hlf. split; [exact Hlf|].
+      intros p. unfold Spec.frame. cbn [c_filltr]. rewrite mk_empty. destruct lf; [contradiction | reflexivity].
+    + intros ->.
+      assert (lf = []).
+      { unfold Model.kw_tuple in Ef. rewrite parse_tr_params_fill_none in Ef. inversion Ef. reflexivity. }
+      subst lf. intros p. unfold Spec.frame. cbn [c_filltr c_trcl]. rewrite mk_empty. reflexivity.
+Qed.
+
+(* ... and so for a located point: below a container built from its keywords, the rest of the
+   descent is located at the point moved back by the FILL transformation when one is written
+   (by number, inline or starred), else by the container's TRCL, else unmoved *)
+Theorem precedence_located : forall table mat rho geom imp u star univ trid params trcl cl
+                                    (s : state) du key p c r,
+  (forall k cd, dget k table = Some cd -> cd <> []) ->
+  cell_of_keywords table mat rho geom imp u (Some (star, univ, trid, params)) trcl = Ok cl ->
+  dget key (s_cells s) = Some cl ->
+  LocW s du key p (key :: c :: r) true ->
+  (params <> [] ->
+     exists lf, kw_tuple true star trid params table = Ok lf /\ lf <> [] /\
+                LocW s du c (inv (mk lf) p) (c :: r) true) /\
+  (params = [] ->
+     match trcl with
+     | None => LocW s du c p (c :: r) true
+     | Some (tstar, ttrid, tparams) =>
+         exists lt, kw_tuple false tstar ttrid tparams table = Ok lt /\
+                    LocW s du c (match lt with [] => p | _ => inv (mk lt) p end) (c :: r) true
+     end).
+Proof.
+  intros table mat rho geom imp u star univ trid params trcl cl s du key p c r Htab Hcl Hk HL.
+  destruct (precedence_from_tokens _ _ _ _ _ _ _ _ _ _ _ _ Htab Hcl) as (_ & Hex & Hno).
+  destruct (LocW_step _ _ _ _ _ _ _ _ HL Hk) as (b1 & b2 & Hb & _ & HL2).
+  symmetry in Hb. apply andb_true_iff in Hb. destruct Hb as [_ ->]. split.
+  - intros Hne. destruct (Hex Hne) as (lf & E & Hlf & Hfr). exists lf. split; [exact E|].
+    split; [exact Hlf|]. rewrite <- (Hfr p). exact HL2.
+  - intros Hp. specialize (Hno Hp). destruct trcl as [[[tstar ttrid] tparams]|].
+    + destruct Hno as (lt & E & Hfr). exists lt. split; [exact E|]. rewrite <- (Hfr p). exact HL2.
+    + rewrite <- (Hno p). exact HL2.
+Qed.
+End Precedence.
+
 End Proofs.
